@@ -15,6 +15,6 @@ CONSTANTS
 INIT Init
 NEXT Next
 VIEW core
-INVARIANTS HeldLayerServes AllReleasedAndEvictedFreesEverything ClosedMeansGone FailedResolveLeaksNothing RefsAccount LockOK CachedIsLive
+INVARIANTS HeldLayerServes AllReleasedAndEvictedFreesEverything ClosedMeansGone NoOpenFilesAfterClose FailedResolveLeaksNothing RefsAccount LockOK CachedIsLive
 PROPERTIES ReadWorks ReturnedIsCached NoDuplicateCreation ResolveAgainWorks
 CHECK_DEADLOCK FALSE
